@@ -7,7 +7,7 @@ import (
 
 func init() {
 	Register(&Scenario{Prop: "C02", Name: "converge-after-heal", Run: scenC02, SoftParks: true, Weight: 1,
-		Rule: "2-4 writer replicas of one database (type drawn per run); 3-12 (thorough 3-36) writes interleaved with kernel steps under drop/dup/reorder of announcements and direct-channel payloads, link cuts/heals, block fetches that end with an error (1 run in 3: pending fetches failed by the kernel; 1 in 3: the first 1-3 fetches of about half the entries), crash or clean stop + restart (open + Load(-1)); final phase: writes stop, crashed peers restart, every link is cut until both sides observed it, then all links heal and no further fault occurs; oracle: within 180 virtual seconds and 6000 kernel steps the world is at rest and every replica holds every acknowledged write and all replicas show equal state; non-trivial = at least one fault fired and at least one entry reached some replica only after the final heal; writes include bursts of 2-3 concurrent writers on one replica (stepped through the write path, or free-running under seeded yields)"})
+		Rule: "2-4 writer replicas of one database (type drawn per run); 3-12 (thorough 3-36) writes interleaved with kernel steps under drop/dup/reorder of announcements and direct-channel payloads, link cuts/heals, block fetches that end with an error (1 run in 3: pending fetches failed by the kernel; 1 in 3: the first 1-3, 1-8 or 1-20 fetches, counted over all replicas, of about half the entries), crash or clean stop + restart (open + Load(-1)); final phase: writes stop, crashed peers restart, every link is cut until both sides observed it, then all links heal and no further fault occurs; oracle: within 180 virtual seconds and 6000 kernel steps the world is at rest and every replica holds every acknowledged write and all replicas show equal state; non-trivial = at least one fault fired and at least one entry reached some replica only after the final heal; writes include bursts of 2-3 concurrent writers on one replica (stepped through the write path, or free-running under seeded yields)"})
 }
 
 func scenC02(k *K) {
@@ -23,6 +23,7 @@ func scenC02(k *K) {
 	// a fetch across a link that is cut, or from a peer that went down, ends with an error
 	// sooner or later: 1 run in 3 fails pending fetches, 1 in 3 fails the first fetches of
 	// about half the entries (until the final phase)
+	c.GapFillMax = []int{3, 8, 20}[k.C.Intn(3)]
 	c.FetchFailures()
 	k.W.HoldOnCut = k.C.Chance(1, 2)
 	nops := k.C.Range(3, 12)
